@@ -155,7 +155,13 @@ def run_method(facts, cr, body, arg_builder, ctx=None, F=None, trace=False):
     st.F = (F or base_facts()).copy()
     args, cells = arg_builder(ip, st)
     res = ip.run(cr, body, args, st)
-    return ip, summarise_paths(ip, res, cells)
+    paths = summarise_paths(ip, res, cells)
+    from . import interp as _IP
+    for p_ in paths:
+        for o in p_.get("oblig", []):
+            if not o["ok"]:
+                _IP.UNPROVED.setdefault((o.get("crate", cr.name), o["fn"]), set()).add("%s %s" % (o["kind"], o["detail"]))
+    return ip, paths
 
 
 def backend_args(alias, in_name="in", out_name="out_old"):
